@@ -1,15 +1,32 @@
 from pyvc.runner import Prop, Fn, Lem, Ground, Native
-from props.rewrite_common import ASSUMPTIONS
+from props.rewrite_common import ASSUMPTIONS, SEM_ASSUMPTIONS, SEM_LEMMAS
 
+_R = 'hpl.rewrite.'
 PROP = Prop(
     'C09',
-    modules=[],
-    tasks=[],
-    bounded=[Native('bounded.rewrite_native.split_and_semantics')],
-    level='exploration',
-    explanation='BOUNDED ONLY at this commit: the real function(s) compared with the reference semantics on the expression '
-                'corpus x a grid of valuations (labelled bounded, nothing counted as proved); contracts for the rewriting '
-                'helpers are being added function by function.',
-    assumptions=ASSUMPTIONS,
-    trusted_base=['bounded.evaluator reference semantics', 'CPython'],
+    modules=['contracts.rewrite_c09'],
+    tasks=[
+        *[Lem(l) for l in SEM_LEMMAS],
+        Lem('valid_conj_operands'), Lem('valid_snoc'), Lem('valid_append'), Lem('valid_unit'), Lem('valid_last'),
+        Lem('out_snoc'), Lem('out_append'), Lem('out_unit'),
+        Fn(_R + 'empty_test', safety_tag='C14'),
+        Fn(_R + '_split_and_quantifier', safety_tag='C14'),
+        Fn(_R + '_split_and_not', safety_tag='C14'),
+        Fn(_R + '_and_presplit_transform', safety_tag='C14'),
+        Fn(_R + '_split_and_expr', safety_tag='C14'),
+        Fn(_R + 'split_and', safety_tag='C14'),
+    ],
+    bounded=[Native('bounded.rewrite_native.split_and_semantics'),
+             Native('bounded.rewrite_native.sem_axioms_hold')],
+    level='other',
+    dep_tags=['C14'],
+    explanation='PROVED for every well-typed boolean expression (unbounded): split_and, _split_and_expr (work-list loop under '
+                'an invariant), _and_presplit_transform, _split_and_not, _split_and_quantifier and empty_test satisfy '
+                '"equivalent on every valuation" (truth-value semantics specs/sem.py, universally quantified valuation), '
+                '"every part boolean and of none of the listed shapes", "ValueError only if unsatisfiable". Not proved: '
+                'absence of TypeError/HplSanityError from the quantifier constructor on rebuilt bodies (declared may-raise, '
+                'C14, bounded), the predicate-unwrapping dispatch of the public function, and the semantic axioms A-SEM '
+                '(checked natively against the reference evaluator). BOUNDED stand-in kept for those parts.',
+    assumptions=ASSUMPTIONS + SEM_ASSUMPTIONS,
+    trusted_base=['z3 5.1.0', 'cvc5 1.0.3', 'pyvc symbolic executor', 'bounded.evaluator reference semantics', 'CPython'],
 )
